@@ -386,7 +386,7 @@ def r8_frontend_keeps_positions(ctx):
     if some_t is None:
         raise AnchorLost("Some arm of the slot loop")
     pushes = [c for c in b.calls_to(r"Vec::<.*>::push$") if b.dominates(some_t, c.bb) and b.can_reach(c.bb, nx.bb)]
-    R.floor("C12.R8", len(pushes), 2, "result appends in the slot loop")
+    R.floor("C12.R8", len(pushes), 1, "result appends in the slot loop")
     pb = {c.bb for c in pushes}
     every = flow.all_paths_pass(b, some_t, pb, {nx.bb}) and some_t != nx.bb
     R.check(every, "C12.R8", "ws:every-slot-yields-an-entry", "every way round the slot loop appends an entry", "the async client's batch_request can go round its slot loop without appending an entry: the result list gets shorter and every later entry moves to the previous position", where(nx))
